@@ -3,7 +3,7 @@
    points with the same x are equal or opposite; G generates the whole group. *)
 From Coq Require Import ZArith List Bool Lia Zpow_facts Zdiv Setoid Morphisms.
 Require Import Bits.Lib.Result Bits.Lib.Group Bits.Lib.ModArith Bits.Model.Ecmath Bits.Proofs.Ecmath
-  Bits.Proofs.Ecdsa Bits.Proofs.EcdsaMore Bits.Proofs.SmallCurves Bits.Proofs.SmallCurvesBig.
+  Bits.Proofs.Ecdsa Bits.Proofs.EcdsaMore Bits.Proofs.SmallCurves.
 Import ListNotations.
 Local Open Scope Z_scope.
 
@@ -41,10 +41,6 @@ Section Check.
 End Check.
 
 Theorem facts_x_43 : curve_facts_x 43 0 7 31 G43.
-Proof. apply check_x_sound. vm_compute. reflexivity. Qed.
-Theorem facts_x_79 : curve_facts_x 79 0 7 67 G79.
-Proof. apply check_x_sound. vm_compute. reflexivity. Qed.
-Theorem facts_x_67 : curve_facts_x 67 0 7 79 G67.
 Proof. apply check_x_sound. vm_compute. reflexivity. Qed.
 
 Section Nonce.
